@@ -234,8 +234,15 @@ def run_case(case, ctx):
         st.count("copies_in_cells_narrower_than_the_pattern", len(groups))
         ctx.nontrivial(["thin", case["s"]])
         return
+    decoys = list(case["decoys"])
+    EXT = {"C": ["Cl", "Cu", "Co", "Ca"], "N": ["Ni", "Na"], "O": ["Os"], "S": ["Si", "Sn"], "H": ["Hf", "He"], "B": ["Br", "Ba"], "F": ["Fe"], "P": ["Pt", "Pd"]}
+    if case["s"] % 6 == 4 and pat["elements"][0] in EXT and len(pat["elements"]) >= 2:
+        # the pattern's first atom becomes an element whose symbol BEGINS with another element's (Cl, Ni, Si, Br ...); a look-alike
+        # group with that other element in first place (C, N, S, B) is planted beside the real copies
+        pat["elements"] = [EXT[pat["elements"][0]][case["s"] // 6 % len(EXT[pat["elements"][0]])]] + list(pat["elements"][1:])
+        decoys.append("first_element_prefix")
     built = planted.build(rng, pat, case["cell"], atol, n_copies=len(case["crossings"]), crossings=case["crossings"], poses=case["poses"],
-                          decoys=case["decoys"], n_bystanders=int(rng.integers(0, 8)), n_distractors=int(rng.integers(0, 4)))
+                          decoys=decoys, n_bystanders=int(rng.integers(0, 8)), n_distractors=int(rng.integers(0, 4)))
     r = search_and_judge(ctx, st, case, pat, built, atol)
     if r is None:
         return
@@ -290,7 +297,7 @@ def requirements(stats, tier):
     for cls in planted.CELL_CLASSES:
         if not any(h.startswith(cls + "/") for h in have):
             need.append("no accepted occurrence in cell class %s" % cls)
-    for d in ("mirror", "near_miss"):
+    for d in ("mirror", "near_miss", "first_element_prefix"):
         if not stats.has("rejected_decoy", d):
             need.append("no rejected %s decoy observed" % d)
     if stats.nseen("accepted_pattern_class") < len(patterns.CLASSES):
